@@ -280,9 +280,27 @@ Proof.
   destruct (String.eqb ty "anti"); [inversion H; subst; cbn; apply wf_filter; exact HL|discriminate].
 Qed.
 
+Lemma wf_list vs : Forall wf_sem vs -> wf_sem (MList vs).
+Proof.
+  intros H. cbn. induction H as [|x l Hx _ IH]; [exact I|]. destruct x; try exact IH. split; [exact Hx|exact IH].
+Qed.
+Lemma map_fst_combine {A B} (a : list A) (b : list B) : List.length a = List.length b -> map fst (combine a b) = a.
+Proof.
+  revert b. induction a as [|x a IH]; intros [|y b] E; try discriminate; [reflexivity|]. cbn. f_equal. apply IH. cbn in E. lia.
+Qed.
+Lemma wf_proj fs rows : wf_rel (seq 0 (List.length fs)) (map (proj_row fs) rows).
+Proof.
+  unfold wf_rel. rewrite Forall_forall. intros x Hx. apply in_map_iff in Hx as (r & <- & _).
+  unfold proj_row. apply map_fst_combine. rewrite seq_length, map_length. reflexivity.
+Qed.
 Lemma op_sem_wf op vs s : Forall wf_sem vs -> op_sem op vs = Some s -> wf_sem s.
 Proof.
-  intros Hv H. unfold op_sem in H. destruct (String.eqb op "list"); [inversion H; subst; exact I|].
+  intros Hv H. unfold op_sem in H. destruct (String.eqb op "list"); [inversion H; subst; apply wf_list; exact Hv|].
+  destruct (String.eqb op "proj").
+  { repeat match type of H with
+           | match ?t with _ => _ end = _ => destruct t; try discriminate
+           end.
+    inversion H; subst. apply wf_proj. }
   repeat match type of H with
          | match ?t with _ => _ end = _ => destruct t; try discriminate
          end;
@@ -466,4 +484,76 @@ Proof.
   { unfold matches. f_equal. apply map_ext. intros r. apply app_assoc. }
   rewrite (matches_left_cond' s2 c1 c2 (lc ++ mc) (l ++ m) R Hc Hs) by (rewrite map_app, HL, HM; reflexivity).
   reflexivity.
+Qed.
+
+(** ** swapping the inputs of an inner join under a projection *)
+Lemma lookup_notin c l : ~ In c (map fst l) -> lookup c l = DNull.
+Proof.
+  induction l as [|[k v] l IH]; intros H; [reflexivity|]. cbn [lookup]. cbn [map fst] in H.
+  destruct (Nat.eqb k c) eqn:E; [apply Nat.eqb_eq in E; subst; exfalso; apply H; left; reflexivity|].
+  apply IH. intros Hc. apply H. right. exact Hc.
+Qed.
+Lemma lookup_swap c l r lc rc : map fst l = lc -> map fst r = rc -> disjb lc rc = true -> lookup c (l ++ r) = lookup c (r ++ l).
+Proof.
+  intros Hl Hr D. rewrite !lookup_app, Hl, Hr. rewrite disjb_spec in D.
+  destruct (memb c lc) eqn:E1; destruct (memb c rc) eqn:E2; try reflexivity.
+  - exfalso. apply memb_In in E1, E2. exact (D c E1 E2).
+  - apply memb_false in E1, E2. rewrite (lookup_notin c l), (lookup_notin c r) by (rewrite ?Hl, ?Hr; assumption). reflexivity.
+Qed.
+Lemma expr_swap s f l r lc rc : reads_only s f -> map fst l = lc -> map fst r = rc -> disjb lc rc = true -> f (l ++ r) = f (r ++ l).
+Proof. intros Hf Hl Hr D. apply Hf. intros c _. apply (lookup_swap c l r lc rc Hl Hr D). Qed.
+
+Lemma flat_map_app_perm {A B} (u v : A -> list B) l :
+  Permutation (flat_map (fun a => u a ++ v a) l) (flat_map u l ++ flat_map v l).
+Proof.
+  induction l as [|a l IH]; [constructor|]. cbn [flat_map].
+  rewrite <- !app_assoc. apply Permutation_app_head.
+  eapply Permutation_trans; [apply Permutation_app_head, IH|].
+  rewrite !app_assoc. apply Permutation_app_tail. apply Permutation_app_comm.
+Qed.
+Lemma flat_map_swap_perm {A B C} (f : A -> B -> list C) (la : list A) (lb : list B) :
+  Permutation (flat_map (fun a => flat_map (f a) lb) la) (flat_map (fun b => flat_map (fun a => f a b) la) lb).
+Proof.
+  induction la as [|a la IH]; cbn [flat_map].
+  - induction lb as [|b lb IHb]; [constructor|exact IHb].
+  - eapply Permutation_trans; [apply Permutation_app_head, IH|].
+    apply Permutation_sym. apply (flat_map_app_perm (f a) (fun b => flat_map (fun a0 => f a0 b) la)).
+Qed.
+Lemma map_matches {B} (g : arow -> B) on l R :
+  map g (matches on l R) = flat_map (fun r => if holdsf on (l ++ r) then [g (l ++ r)] else []) R.
+Proof.
+  unfold matches. induction R as [|r R IH]; [reflexivity|]. cbn [map filter flat_map].
+  destruct (holdsf on (l ++ r)); cbn [map app]; rewrite IH; reflexivity.
+Qed.
+Lemma map_flat_map {A B C} (g : B -> C) (f : A -> list B) l : map g (flat_map f l) = flat_map (fun a => map g (f a)) l.
+Proof. induction l as [|a l IH]; [reflexivity|]. cbn [flat_map]. rewrite map_app, IH. reflexivity. Qed.
+
+Definition exprs_ok (fs : list (list nat * (arow -> dv))) : Prop := Forall (fun e => reads_only (fst e) (snd e)) fs.
+Lemma proj_row_swap fs l r lc rc : exprs_ok fs -> map fst l = lc -> map fst r = rc -> disjb lc rc = true ->
+  proj_row fs (l ++ r) = proj_row fs (r ++ l).
+Proof.
+  intros Hfs Hl Hr D. unfold proj_row. f_equal. apply map_ext_in. intros e He.
+  unfold exprs_ok in Hfs. rewrite Forall_forall in Hfs. apply (expr_swap (fst e) (snd e) l r lc rc (Hfs e He) Hl Hr D).
+Qed.
+Lemma inner_join_swap s on fs lc rc L R : reads_only s on -> exprs_ok fs -> wf_rel lc L -> wf_rel rc R -> disjb lc rc = true ->
+  Permutation (map (proj_row fs) (flat_map (fun l => matches on l R) L))
+              (map (proj_row fs) (flat_map (fun r => matches on r L) R)).
+Proof.
+  intros Hon Hfs HL HR D. unfold wf_rel in HL, HR. rewrite Forall_forall in HL, HR.
+  rewrite !map_flat_map.
+  rewrite (flat_map_ext_in _ (fun l => flat_map (fun r => if holdsf on (l ++ r) then [proj_row fs (l ++ r)] else []) R))
+    by (intros l _; apply map_matches).
+  rewrite (flat_map_ext_in (fun r => map (proj_row fs) (matches on r L))
+                           (fun r => flat_map (fun l => if holdsf on (l ++ r) then [proj_row fs (l ++ r)] else []) L)).
+  - apply (flat_map_swap_perm (fun l r => if holdsf on (l ++ r) then [proj_row fs (l ++ r)] else []) L R).
+  - intros r Hr. rewrite map_matches. apply flat_map_ext_in. intros l Hl.
+    unfold holdsf. rewrite (expr_swap s on r l rc lc Hon (HR r Hr) (HL l Hl) (disjb_sym _ _ D)).
+    rewrite (proj_row_swap fs r l rc lc Hfs (HR r Hr) (HL l Hl) (disjb_sym _ _ D)). reflexivity.
+Qed.
+Lemma exprs_of_ok es fs : wf_sem (MList es) -> exprs_of es = Some fs -> exprs_ok fs.
+Proof.
+  revert fs. induction es as [|x es IH]; intros fs W H; cbn in H.
+  - inversion H. constructor.
+  - destruct x; try discriminate. destruct (exprs_of es) as [t|] eqn:E; [|discriminate]. inversion H; subst.
+    cbn in W. destruct W as [W1 W2]. constructor; [exact W1|]. apply IH; [exact W2|reflexivity].
 Qed.
